@@ -15,6 +15,11 @@ def run(tier, rep):
                            timeout=3400, stdout=subprocess.PIPE, stderr=subprocess.PIPE, text=True)
     finally:
         shutil.rmtree(work, ignore_errors=True)
+    if r.returncode == 77 and os.path.exists(out + '.crash'):
+        txt = open(out + '.crash').read().split('\n', 1)
+        rep.violation('crash:' + txt[1].split(' start=')[0].replace(' ', '_')[:60], 'the reader killed the process (%s) in scenario: %s' % (txt[0], txt[1]))
+        rep.coverage.update({'evaluations': 0, 'exhaustive': False, 'rule': 'aborted by a crash of the code under test (see violation)', 'samples': ['none']})
+        return
     if r.returncode != 0:
         raise SystemExit('HARNESS-ERROR: c11 exited %d %s' % (r.returncode, r.stderr[-500:]))
     x = json.load(open(out))
@@ -27,7 +32,7 @@ def run(tier, rep):
         'rule': 'state = (stream length N <= %d, split of the stream over 1..3 files incl. empty and white-space-only files, start in 0..N+1, max in 0..N+1); '
                 'for each state every call pattern with 0..3 has_next_event() calls before each load and 3 after exhaustion is run on a real event_reader over real '
                 'files; reference model = list slice events[start:start+max]; every has_next answer, every loaded event, the loaded counter are compared. Round trip: '
-                'single-particle events over the full product species x time x px x py x pz of an 9-value alphabet (incl. denormal-edge and 1e300), structured '
+                'single-particle events over the full product species (all six particle codes) x time x px x py x pz of an 9-value alphabet (incl. denormal-edge and 1e300), structured '
                 '0/2/3-particle events, written exactly as bxdecay0-run writes records, once on a stream prepared like the driver\'s (precision 15) and once on a stream left at its defaults' % nmax,
     })
     rep.assumptions += ['record format = "<id> " + event::store(STORE_EVENT_TIME) + blank line, as written by programs/bxdecay0_driver.cpp',
